@@ -138,6 +138,8 @@ func c11Quantities(book absBook, scheme int) {
 	}
 }
 
+var c11Outcome = map[string]string{}
+
 func init() { propChecks["C11"] = checkC11 }
 
 func checkC11(w *Worker) {
@@ -183,7 +185,17 @@ func checkC11(w *Worker) {
 		x.Case(fmt.Sprintf("%s|%d|%d", book, n, api), refs > 0)
 		x.Sample(map[string]interface{}{"book": book.String(), "N": n, "api": apiNames[api], "visits": *visits, "longest_chain": mh, "result": got})
 		rep := map[string]interface{}{"book": book.String(), "N": n, "api": apiNames[api], "map_visits": *visits, "longest_chain": mh, "expected_error": wantErr, "observed": got}
-		if err != nil && got != depthErrText {
+		// the same on every run: the outcome (error text included) of one book under one limit is one, whatever the order
+		okey := fmt.Sprintf("%s|%s|%d|%d", what, book, n, api)
+		if prev, seen := c11Outcome[okey]; !seen {
+			if len(c11Outcome) < 2000000 {
+				c11Outcome[okey] = got
+			}
+		} else if prev != got {
+			x.Violate("C11|"+what+"|outcome-depends-on-visiting-order", fmt.Sprintf("book {%s} N=%d via %s: %q under one visiting order, %q under another (%v)", book, n, apiNames[api], prev, got, *visits), rep)
+			return
+		}
+		if err != nil && !strings.Contains(got, depthErrText) { // (the message may say more, e.g. name a recipe)
 			x.Violate("C11|"+what+"|unexpected-error-or-panic", fmt.Sprintf("book {%s} N=%d via %s: unexpected result %q", book, n, apiNames[api], got), rep)
 			return
 		}
@@ -304,7 +316,7 @@ func checkC11(w *Worker) {
 			x.Violate("C11|app|panic", fmt.Sprintf("`%s`: %s", c.shell(), r.Panic), rep)
 			return
 		}
-		if wantErr && (!r.Failed || r.Err != depthErrText) {
+		if wantErr && (!r.Failed || !strings.Contains(r.Err, depthErrText)) {
 			x.Violate("C11|app|"+srcName+"|chain-ge-N-accepted", fmt.Sprintf("limit %d given through %s, longest chain %d (cyclic: %v): `%s` did not fail with the depth error: %s", n, srcName, L, delta == 2, c.shell(), r.String()), rep)
 		}
 		if !wantErr && r.Failed {
